@@ -27,7 +27,7 @@ pub enum Act {
     SetBe(BE),
 }
 
-const GEOS: [((u32, u32), (u32, u32)); 18] = [
+const GEOS: [((u32, u32), (u32, u32)); 20] = [
     ((3, 3), (2, 2)),
     ((9, 7), (4, 5)),
     ((4, 5), (9, 7)),
@@ -48,6 +48,9 @@ const GEOS: [((u32, u32), (u32, u32)); 18] = [
     ((40, 40), (5, 5)),
     ((40, 40), (6, 6)),
     ((40, 40), (7, 7)),
+    // tiny: a Vec<u8> never allocates fewer than 8 bytes, so 4 bytes then 8 bytes is len < need <= capacity
+    ((3, 2), (2, 1)),
+    ((7, 2), (3, 1)),
 ];
 
 /// Ladder actions: (pixel type, geometry index, algorithm, alpha) — one ladder per scratch buffer.
@@ -62,7 +65,18 @@ fn ladder_actions() -> Vec<Act> {
     for g in 14..=17 {
         v.push(Act::Resize { pt: PT::U16x3, geo: g, alg: Alg::SS(F::Box, 2), alpha: false, frac: false }); // super_sampling_buffer
     }
+    for g in 18..=19 {
+        v.push(Act::Resize { pt: PT::U8, geo: g, alg: Alg::Conv(F::Bilinear), alpha: false, frac: false });
+    }
     v
+}
+
+/// The ladder alphabet: size ladders of the three scratch buffers plus reset / clone.
+pub fn ladder_alphabet() -> Vec<Act> {
+    let mut l = ladder_actions();
+    l.push(Act::Reset);
+    l.push(Act::CloneIt);
+    l
 }
 
 pub fn alphabet(tier: Tier, sub: bool) -> Vec<Act> {
@@ -373,9 +387,7 @@ pub fn prop(tier: Tier, _seed: u64) -> Prop {
     let (d_full, d_sub): (u8, u8) = tier.pick((2, 3), (3, 4));
     let (f1, s1) = (full.clone(), sub.clone());
     // ladder alphabet: only the size ladders of the three scratch buffers plus reset / clone, deeper
-    let mut ladder: Vec<Act> = ladder_actions();
-    ladder.push(Act::Reset);
-    ladder.push(Act::CloneIt);
+    let ladder: Vec<Act> = ladder_alphabet();
     let d_ladder: u8 = tier.pick(4, 5);
     let l1 = ladder.clone();
     p.extra.push(Box::new(move |cfg| search(l1.clone(), d_ladder, cfg.threads, "ladder alphabet, deepest")));
@@ -396,12 +408,7 @@ pub fn prop(tier: Tier, _seed: u64) -> Prop {
     p.extra.push(Box::new(move |cfg| search(s1.clone(), d_sub, cfg.threads, "sub-alphabet, deeper")));
     let (f2, s2) = (full.clone(), sub.clone());
     p.replay_fn = Some(Box::new(move |detail: &Value| {
-        let l2 = {
-            let mut l = ladder_actions();
-            l.push(Act::Reset);
-            l.push(Act::CloneIt);
-            l
-        };
+        let l2 = ladder_alphabet();
         let acts = match detail["alphabet"].as_str() {
             Some("ladder") => &l2,
             Some("sub") => &s2,
